@@ -209,6 +209,7 @@ PROPS["C16"] = dict(
 PROPS["C15"] = dict(
     producers=[("pyvc.table_check", "call_items")],
     level="exploration",
+    timeout=300,
     technique="mixed.  Contract-based deductive verification (pyvc VCs -> z3) of polygonize's first stage on the real code: "
               "_calculate_regions (both the masked and the unmasked typing) labels exactly the connected regions of equal value - masked "
               "cells 0, others >= 1, equal labels only inside a class of every adjacency-closed labelling (ghost), every cell joined with "
